@@ -1204,3 +1204,75 @@ package moss
 //@   unlock 1: @noOverwrite atAcquire(m.stackDirtyBase) != nil ==> m.stackDirtyBase == atAcquire(m.stackDirtyBase) && m.stackDirtyMid == atAcquire(m.stackDirtyMid)
 //@   unlock 1: @nothingToHand atAcquire(m.stackDirtyBase) == nil && atAcquire(m.stackDirtyMid) == nil ==> m.stackDirtyBase == nil && m.stackDirtyMid == nil
 //@   unlock 1: @restKept m.stackDirtyTop == atAcquire(m.stackDirtyTop) && m.stackClean == atAcquire(m.stackClean) && m.lowerLevelSnapshot == atAcquire(m.lowerLevelSnapshot) && m.latestSnapshot == atAcquire(m.latestSnapshot)
+
+// ---- Close is final (C16) ---------------------------------------------------------------------------------------
+
+//@ func (m *collection) snapshot(skip uint32, cb func(*segmentStack), gotLock bool) (*segmentStack, int, int, int, int)
+//@   props C01
+//@   attr obligations call-requires
+//@   attr only-labels none
+//@   requires m != nil && (gotLock <==> held(m.m))
+//@   modifies heaps(SnapshotWrapper), heaps(CollectionStats), heaps(collection)
+//@   ensures @shape r0 != nil && fresh(r0) && r0.refs == 1
+//@   ensures @lock held(m.m) == old(held(m.m))
+//@   ensures @noCallback cb == nil ==> m.stackDirtyTop == old(m.stackDirtyTop) && m.stackDirtyMid == old(m.stackDirtyMid) && m.stackDirtyBase == old(m.stackDirtyBase) &&
+//@       m.stackClean == old(m.stackClean) && m.lowerLevelSnapshot == old(m.lowerLevelSnapshot) && m.latestSnapshot == old(m.latestSnapshot) &&
+//@       m.waitDirtyIncomingCh == old(m.waitDirtyIncomingCh) && m.waitDirtyOutgoingCh == old(m.waitDirtyOutgoingCh)
+
+//@ func (m *collection) Get(key []byte, readOptions ReadOptions) ([]byte, error)
+//@   props C16
+//@   attr obligations ensures
+//@   requires m != nil && m.stats != nil && collOK(m)
+//@   modifies heaps(SnapshotWrapper), heaps(CollectionStats)
+//@   ensures @closedFinal old(closed(m.stopCh)) ==> r1 == ErrClosed && r0 == nil
+
+//@ func (m *collection) NewBatch(totalOps, totalKeyValBytes int) (Batch, error)
+//@   props C16
+//@   attr obligations ensures
+//@   requires m != nil && m.stats != nil
+//@   modifies heaps(CollectionStats)
+//@   ensures @closedFinal old(closed(m.stopCh)) ==> r1 == ErrClosed && r0 == nil
+
+//@ func (m *collection) Snapshot() (rv Snapshot, err error)
+//@   props C16 C03
+//@   attr obligations ensures lock-inv region guarded lock
+//@   requires m != nil && m.stats != nil && !held(m.m)
+//@   modifies *
+//@   ensures @closedFinal old(closed(m.stopCh)) ==> err == ErrClosed
+//@   ensures @unlocked !held(m.m)
+//@   unlock 1: @sectionsKept m.stackDirtyTop == atAcquire(m.stackDirtyTop) && m.stackDirtyMid == atAcquire(m.stackDirtyMid) && m.stackDirtyBase == atAcquire(m.stackDirtyBase) &&
+//@       m.stackClean == atAcquire(m.stackClean) && m.lowerLevelSnapshot == atAcquire(m.lowerLevelSnapshot)
+
+// Close: under the lock, drops the cached snapshot, closes stopCh and wakes
+// both the writers blocked on back-pressure and the persister.
+//@ func (m *collection) Close() error
+//@   props C16
+//@   attr obligations lock-inv region guarded lock
+//@   requires m != nil && m.stats != nil && m.options != nil && !held(m.m) && !closed(m.stopCh)
+//@   modifies *
+//@   unlock 1: @woken closed(m.stopCh) && signalled(m.stackDirtyTopCond) && signalled(m.stackDirtyBaseCond) && m.latestSnapshot == nil
+//@   unlock 2: @emptied closed(m.stopCh) && m.stackDirtyTop == nil && m.stackDirtyMid == nil && m.stackDirtyBase == nil && m.stackClean == nil && m.lowerLevelSnapshot == nil
+
+// ---- the merger takes the top section (C01, C03, C16) ---------------------------------------------------------------
+
+// The callback the merger runs inside snapshot()'s critical section: the new
+// stack (which already holds mid ++ top) becomes the middle section, the top
+// section is emptied, the cached snapshot is dropped and the writers waiting
+// for room in the top section are woken.
+//@ func collection.runMerger$3(ss *segmentStack)
+//@   props C01 C03 C16
+//@   attr obligations ensures guarded lock
+//@   requires m != nil && held(m.m) && ss != nil && m.stats != nil
+//@   modifies *
+//@   ensures @swapped m.stackDirtyTop == nil && m.stackDirtyMid == ss && m.latestSnapshot == nil
+//@   ensures @woken signalled(m.stackDirtyTopCond)
+//@   ensures @kept m.stackDirtyBase == old(m.stackDirtyBase) && m.stackClean == old(m.stackClean) && m.lowerLevelSnapshot == old(m.lowerLevelSnapshot) && held(m.m)
+
+// Emptying the top section makes room: blocked writers must be woken.
+//@ func (m *collection) ResetStackDirtyTop() error
+//@   props C16
+//@   attr obligations lock-inv region guarded lock
+//@   requires m != nil && !held(m.m) && m.stats != nil
+//@   modifies *
+//@   unlock 1: @emptied m.stackDirtyTop == nil && m.latestSnapshot == nil
+//@   unlock 1: @woken atAcquire(m.stackDirtyTop) != nil ==> signalled(m.stackDirtyTopCond)
